@@ -761,6 +761,19 @@ func c15Attach(c *Ctx) {
 				switch x := cond.(type) {
 				case *ssa.Call:
 					if x.Call.IsInvoke() && x.Call.Method.Name() == "Enabled" && strings.HasSuffix(st.Desc(x.Call.Value), ".addStack") {
+						// asked about the level of the entry as the cores accepted it (a core may re-level an entry), not
+						// about the level the caller asked for
+						okLvl := false
+						if ld, isLd := resolve(st, x.Call.Args[0]).(*ssa.UnOp); isLd && ld.Op == token.MUL {
+							if f1, isF := ld.X.(*ssa.FieldAddr); isF && fieldName(f1.X.Type(), f1.Field) == "Level" {
+								if f2, isF2 := f1.X.(*ssa.FieldAddr); isF2 && fieldName(f2.X.Type(), f2.Field) == "Entry" && strings.HasSuffix(TypeName(f2.X.Type()), "zapcore.CheckedEntry") {
+									okLvl = true
+								}
+							}
+						}
+						if !okLvl {
+							return "stack-wanted-for(" + st.Desc(x.Call.Args[0]) + ")"
+						}
 						return tf("stack-wanted", pol)
 					}
 				case *ssa.Extract:
